@@ -19,6 +19,16 @@ class EnumIndex:
                 if f.endswith('.rs'):
                     self._scan(os.path.join(d, f))
 
+    def add_dir(self, src_dir):
+        """also index the enums of another crate's sources (types of a dependency that appear in this crate's MIR)"""
+        keep = self.src_dir
+        self.src_dir = src_dir
+        for d, _, files in os.walk(src_dir):
+            for f in files:
+                if f.endswith('.rs'):
+                    self._scan(os.path.join(d, f))
+        self.src_dir = keep
+
     def _module(self, path):
         rel = os.path.relpath(path, self.src_dir)[:-3]
         parts = [p for p in rel.split(os.sep) if p not in ('mod', 'lib')]
